@@ -598,3 +598,176 @@ Section Reach.
   Qed.
   End Fixed.
 End Reach.
+
+(** * Step- and history-level corollaries *)
+Section Histories.
+  Variable blocked : N -> bool.
+  Variable bond : N.
+
+  (** merging through CreateClawbackVestingAccount: after both schedules have
+      started, the merged account has released what the old account and the
+      grant have released *)
+  Theorem create_merge_releases_sum fixed s t from to start lp vp deleg s' va :
+    all_good s -> op_ok (Create t from to start lp vp true deleg) ->
+    step blocked bond fixed s (Create t from to start lp vp true deleg) = (s', OK) ->
+    accts s !! to = Some (Claw va) ->
+    let '(glp, gvp, _, _) := with_defaults (of_pl lp) (of_pl vp) in
+    exists va', accts s' !! to = Some (Claw va') /\
+      forall t' d, Z.max (start_time va) start < t' ->
+        amt (get_unlocked va' t') d = amt (get_unlocked va t') d + amt (ev start glp t') d /\
+        amt (get_vested va' t') d = amt (get_vested va t') d + amt (ev start gvp t') d.
+  Proof.
+    intros Hall (Hla & Hva & Hdel) H Ha. cbn [step] in H.
+    apply create_shape in H as [[? _]|(_ & _ & Hb & H)]; [done|].
+    destruct (with_defaults _ _) as [[[glp gvp] lc] gc] eqn:Hwd. destruct H as (Heq & va' & Hsend & Hk).
+    destruct Hk as [[Hn _]|(va0 & Ha0 & _ & Hf & Hg)]; [congruence|].
+    assert (va0 = va) as -> by congruence.
+    exists va'. split.
+    { rewrite (send_claw _ _ _ _ _ _ _ _ Hsend). cbn [set_acct accts]. by rewrite lookup_insert. }
+    destruct (with_defaults_ok _ _ _ _ _ _ Hb Hla Hva Hwd) as (L1 & L2 & L3 & L4 & L5 & L6 & L7 & L8).
+    pose proof (proj1 (coin_eq_spec _ _ L6 L5) Heq) as Hvl.
+    destruct (Hall _ _ Ha) as (Hc & Hw & _).
+    eapply add_grant_releases_sum; try done. intros d. by rewrite Hvl.
+  Qed.
+
+  (** the same through ConvertIntoVestingAccount -> ApplyVestingSchedule, for
+      the code after the fix *)
+  Theorem apply_merge_releases_sum s t from to start lp vp deleg s' va :
+    all_good s -> op_ok (Convert t from to start lp vp true deleg) ->
+    step blocked bond true s (Convert t from to start lp vp true deleg) = (s', OK) ->
+    accts s !! to = Some (Claw va) ->
+    let '(glp, gvp, _, _) := with_defaults (of_pl lp) (of_pl vp) in
+    exists va', accts s' !! to = Some (Claw va') /\
+      forall t' d, Z.max (start_time va) start < t' ->
+        amt (get_unlocked va' t') d = amt (get_unlocked va t') d + amt (ev start glp t') d /\
+        amt (get_vested va' t') d = amt (get_vested va t') d + amt (ev start gvp t') d.
+  Proof.
+    intros Hall (Hla & Hva & Hdel) H Ha. cbn [step] in H.
+    apply convert_shape in H as [[? _]|(_ & _ & Hb & H)]; [done|].
+    destruct (with_defaults _ _) as [[[glp gvp] lc] gc] eqn:Hwd. destruct H as (Heq & va' & Hsend & Hk).
+    destruct Hk as [[Hn _]|[[Hn _]|(va0 & Ha0 & _ & Hf & Hg)]]; [congruence|congruence|].
+    assert (va0 = va) as -> by congruence. cbn [gstart] in Hg.
+    exists va'. split.
+    { rewrite (send_claw _ _ _ _ _ _ _ _ Hsend). cbn [set_acct accts]. by rewrite lookup_insert. }
+    destruct (with_defaults_ok _ _ _ _ _ _ Hb Hla Hva Hwd) as (L1 & L2 & L3 & L4 & L5 & L6 & L7 & L8).
+    pose proof (proj1 (coin_eq_spec _ _ L6 L5) Heq) as Hvl.
+    destruct (Hall _ _ Ha) as (Hc & Hw & _).
+    eapply add_grant_releases_sum; try done. intros d. by rewrite Hvl.
+  Qed.
+
+  (** a successful clawback on a reachable account: exact amounts, the vested
+      coins keep their lockup, and the account stays coherent; it passes
+      Validate when a vesting event strictly after the start has happened *)
+  Theorem clawback_on_reachable fixed ops t f a dest0 s' :
+    Forall op_ok ops ->
+    let s := run blocked bond fixed ops kinit in
+    step blocked bond fixed s (Clawback t f a dest0) = (s', OK) ->
+    exists va, accts s !! a = Some (Claw va) /\ funder va = f /\
+      exists va' u, compute_clawback va t = Some (va', u) /\
+        (forall d, amt u d = amt (original va) d - amt (get_vested va t) d /\ 0 <= amt u d) /\
+        original va' = get_vested va t /\
+        (forall t' d, amt (get_unlocked va' t') d = Z.min (amt (get_unlocked va t') d) (amt (get_vested va t) d)) /\
+        (forall t' d, amt (get_vested va' t') d = Z.min (amt (get_vested va t') d) (amt (get_vested va t) d)) /\
+        good va' /\
+        (start_time va < end_time va' -> valid va') /\
+        (Forall (fun p => 0 < len p) (vesting va) -> (exists d, amt (get_vested va t) d <> 0) -> valid va').
+  Proof.
+    intros Hok s H. pose proof (reachable_good blocked bond fixed ops Hok) as Hall. fold s in Hall.
+    cbn [step] in H. apply clawback_shape in H as [[? _]|(_ & _ & va & va' & c & Ha & Hf & Hc & _)]; [done|].
+    exists va. split; [done|]. split; [done|]. exists va', c. split; [done|].
+    destruct (Hall _ _ Ha) as (Hco & Hw & Hdv).
+    destruct (clawback_exact va Hco Hw t) as (va2 & c2 & Hc2 & E1 & _ & E3 & _ & _ & _ & _ & E4 & E5).
+    rewrite Hc in Hc2. injection Hc2 as <- <-.
+    destruct (clawback_coherent va Hco Hw t va' c Hc) as [Hco' Hw'].
+    assert (Hd : is_all_lte (dvest va) (get_vested va t) = true).
+    { rewrite Hdv. apply is_all_lte_spec. intros d [x Hx]. by rewrite lookup_empty in Hx. }
+    split. { intros d. split; [apply E1|]. rewrite E1. pose proof (vested_bounds va Hco Hw t d). lia. }
+    split; [done|]. split; [done|]. split; [done|].
+    split. { split; [done|]. split; [done|]. rewrite (compute_clawback_eq va Hco Hw t) in Hc. by injection Hc as <- _. }
+    split. { intros He. by apply (clawback_valid_general va Hco Hw t va' c). }
+    intros Hp Hne. by apply (clawback_valid_partial va Hco Hw t va' c).
+  Qed.
+
+  (** every reachable account splits its grant exactly *)
+  Theorem reachable_splits fixed ops a va t :
+    Forall op_ok ops -> accts (run blocked bond fixed ops kinit) !! a = Some (Claw va) ->
+    (exists u, get_vesting va t = Some u /\
+       forall d, amt (get_vested va t) d + amt u d = amt (original va) d /\
+                 0 <= amt (get_vested va t) d /\ 0 <= amt u d) /\
+    (exists l, get_locked_up va t = Some l /\
+       forall d, amt (get_unlocked va t) d + amt l d = amt (original va) d /\
+                 0 <= amt (get_unlocked va t) d /\ 0 <= amt l d).
+  Proof.
+    intros Hok Ha. destruct (reachable_good blocked bond fixed ops Hok _ _ Ha) as (Hco & Hw & _).
+    split; [by apply vested_plus_unvested|by apply locked_plus_unlocked].
+  Qed.
+End Histories.
+
+(** * Finding F1 and non-vacuity *)
+Definition f1_prefix : list op :=
+  [Fund 0%N [(0%N, 1000)];
+   Create 900 0%N 1%N 1000 [(3000, [(0%N, 100)])] [(3000, [(0%N, 100)])] false 0].
+Definition f1_merge : op :=
+  Convert 950 0%N 1%N 2000 [(2000, [(0%N, 50)])] [(2000, [(0%N, 50)])] true 0.
+
+Ltac op_ok_tac :=
+  repeat first [ exact I
+               | match goal with |- (_ <= _)%Z => lia end
+               | match goal with |- nonneg _ => apply nonneg_by_compute; vm_compute; reflexivity end
+               | constructor ].
+
+Definition unlocked_of (s : kstate) (a : N) (t : Z) : Z :=
+  match accts s !! a with Some (Claw va) => amt (get_unlocked va t) 0%N | _ => -1 end.
+
+(** Account start 1000 with a 3000 s lockup, grant start 2000 with a 2000 s
+    lockup: both unlock at 4000.  The pinned ApplyVestingSchedule (merge start =
+    min(grant start, account start)) released the grant's 50 at 3000. *)
+Theorem apply_merge_union_refuted :
+  Forall op_ok (f1_prefix ++ [f1_merge]) /\
+  let s := run blocked_h bond_h false f1_prefix kinit in
+  let '(s', r) := step blocked_h bond_h false s f1_merge in
+  r = OK /\
+  unlocked_of s 1%N 3500 = 0 /\                      (* the old account has released nothing at 3500 *)
+  amt (ev 2000 (of_pl [(2000, [(0%N, 50)])]) 3500) 0%N = 0 /\   (* neither has the grant *)
+  unlocked_of s' 1%N 3500 = 50.                      (* but the merged account has released 50 *)
+Proof.
+  split; [unfold f1_prefix, f1_merge; cbn [app]; op_ok_tac|]. vm_compute. done.
+Qed.
+
+(** the fixed code on the same input *)
+Example apply_merge_union_witness_fixed :
+  let s := run blocked_h bond_h true f1_prefix kinit in
+  let '(s', r) := step blocked_h bond_h true s f1_merge in
+  r = OK /\ unlocked_of s' 1%N 3500 = 0 /\ unlocked_of s' 1%N 3999 = 0 /\ unlocked_of s' 1%N 4000 = 150.
+Proof. vm_compute. done. Qed.
+
+(** Non-vacuity of the history theorems: a history with a two-denomination
+    grant, a merge through each path, an update of the funder and a clawback
+    in the middle of the schedule by the new funder; every hypothesis holds. *)
+Definition ex_history : list op :=
+  [Fund 0%N [(0%N, 10000); (1%N, 900)];
+   Create 900 0%N 1%N 1000 [(200, [(0%N, 300); (1%N, 90)])]
+          [(100, [(0%N, 100); (1%N, 30)]); (100, [(0%N, 100); (1%N, 30)]); (100, [(0%N, 100); (1%N, 30)])] false 0;
+   Create 950 0%N 1%N 1050 [(100, [(0%N, 40)])] [(50, [(0%N, 40)])] true 0;
+   Convert 960 0%N 1%N 1100 [] [(150, [(0%N, 60)])] true 0;
+   UpdateFunder 970 0%N 2%N 1%N].
+Definition ex_clawback : op := Clawback 1150 2%N 1%N (Some 3%N).
+
+Example ex_history_ok :
+  Forall op_ok ex_history /\
+  let sg := grun blocked_h bond_h true ex_history in
+  snd sg !! 1%N = Some 2%N /\
+  let '(s', r) := step blocked_h bond_h true (fst sg) ex_clawback in
+  r = OK /\
+  snd (step blocked_h bond_h true (fst sg) (Clawback 1150 0%N 1%N (Some 3%N))) = E_UNAUTH /\
+  canon (bal s' 3%N) = [(0%N, 260); (1%N, 60)] /\
+  canon (bal s' 1%N) = [(0%N, 140); (1%N, 30)] /\
+  match accts s' !! 1%N with
+  | Some (Claw va') => validate va' = V_OK /\ canon (original va') = [(0%N, 140); (1%N, 30)]
+  | _ => False
+  end.
+Proof.
+  split.
+  - unfold ex_history. op_ok_tac.
+  - vm_compute. repeat split; reflexivity.
+Qed.
